@@ -258,6 +258,8 @@ def run_check(prop, tier, seed, replay=None):
         return 0 if ok else 1
 
     notes = []
+    for old in (VERIF / "replays").glob(f"{prop}-*.json"):
+        old.unlink()
     # 1 regenerate
     gen_info = regenerate()
     # 2 build + audit
